@@ -240,6 +240,23 @@ CLAIMED = {
              "the signed shifts of the digit extraction, which are outside this property. A non-influential out-of-extent read "
              "inside the four hand-written assembly kernels is invisible.",
         technique="TLA+ extent/ledger specifications + TLC trace validation of reported sizes and allocator events + exact-size replay of TLC-generated cases under canaries and AddressSanitizer"),
+    "C06": dict(
+        category="other",
+        text="Order and structure are decided by the specification: FftSchedule.tla transcribes the reference split-layout FFT "
+             "(leaves of 16/8/4/2, breadth-first radix-4 passes with an initial radix-2 pass for odd log2 m, recursive halving, "
+             "twiddle exponents as the fill_* functions compute them) as a symbolic machine over exponents of w = exp(2 pi i/4m), "
+             "and TLC checks one monomial per (output, input) and output j = evaluation at w^(1+4 bitrev j) for m = 1..256 in both "
+             "regimes. The code is bound to it by impulse probes of all 16 implementations (reference, AVX2/FMA drivers with the "
+             "assembly leaves, dispatch under both CPU masks, *_simple; reim and cplx; forward and inverse) for every m = 1..4096 and "
+             "65536 (thorough: every m), each output classified to a 4m-th root of unity and the exponents validated by TLC, plus "
+             "bit-identical repeated calls and unchanged table bytes; the real tables (m<=2048) are compared with the table "
+             "generated from the schedule (advisory). The error-norm clause is MEASURED (constants, resonant, wide dynamic range, "
+             "random inputs against an 80-bit long double evaluation of the documented map) and the bound is evaluated by TLC.",
+        design_ref="DESIGN.md section 4 C06, section 6",
+        note="TLA+ has no reals: the norm clause is measured, not derived (level 'other'). Trusted: TLC, numpy long double reference "
+             "(64-bit significand, about 2000x finer than the bound), mpmath for the table check. The inverse and the cplx schedules "
+             "are not transcribed; they are bound by probes only. Observed errors are about 10% of the bound.",
+        technique="TLA+ symbolic schedule model checked with TLC + TLC trace validation of impulse-response exponents + measured error norm judged by TLC"),
 }
 
 NOT_YET = "check not built yet in this session (planned, see DESIGN.md section 8)"
